@@ -41,7 +41,7 @@ static void chk_count (SNDFILE *s, const char *what, sf_count_t r, sf_count_t re
 /* one run of a workload; returns the number of callbacks performed */
 static long g_fault2 ; static int g_kind2 ;	/* second single-shot fault (thorough tier), 0 = none */
 static long run_workload (int format, int ch, int wl, int t, const MEMF *base, long fault_at, int kind, int persist)
-{	SF_INFO si ; SNDFILE *s ; size_t h0 ; int f0 ; SF_VERIF_STATE st ; long calls ; sf_count_t wr_dataoffset = 0 ; int fired_by_update = 0 ; long wdone0 = 0 ; int ts = vh_tsize [t], i ; static double buf [4096] ; sf_count_t r ;
+{	SF_INFO si ; SNDFILE *s ; size_t h0 ; int f0 ; SF_VERIF_STATE st ; long calls ; sf_count_t wr_dataoffset = 0 ; int fired_by_update = 0, fired_in_update = 0 ; long wdone0 = 0 ; int ts = vh_tsize [t], i ; static double buf [4096] ; sf_count_t r ;
 	memset (&si, 0, sizeof (si)) ;
 	free (store.snap) ; store.snap = NULL ; store.snap_len = 0 ; store.snap_want = (wl == WL_WRITE && fault_at > 0) ;
 	store.pos = 0 ; store.ncalls = 0 ; store.fired = 0 ; store.nwrite_done = 0 ; store.snap_wdone = 0 ; store.fault_at = fault_at ; store.fault_kind = kind ; store.fault_persist = persist ; store.fault_at2 = g_fault2 ; store.fault_kind2 = g_kind2 ; store.budget = 300000 ;	/* the fault-free workloads need a few hundred callbacks */
@@ -63,7 +63,7 @@ static long run_workload (int format, int ch, int wl, int t, const MEMF *base, l
 		{	vh_state (s, &st) ; wr_dataoffset = st.dataoffset ;
 			sf_set_string (s, SF_STR_TITLE, "title") ;
 			for (i = 0 ; i < 3 ; i++) { vh_state (s, &st) ; r = vh_write_t (s, t, i & 1, buf, i == 1 ? nitems + ch * 1500 / ch : nitems / 4 / ch * ch + ch, ch) ; chk_count (s, "write", r, i == 1 ? nitems + ch * 1500 / ch : nitems / 4 / ch * ch + ch, ch, 0, &st) ; }
-			wdone0 = store.nwrite_done ; sf_command (s, SFC_UPDATE_HEADER_NOW, NULL, 0) ; fired_by_update = store.snap != NULL && store.snap_wdone <= wdone0 ;
+			wdone0 = store.nwrite_done ; { long f0c = store.fired ; sf_command (s, SFC_UPDATE_HEADER_NOW, NULL, 0) ; fired_in_update = (f0c == 0 && store.fired > 0) ; } fired_by_update = store.snap != NULL && store.snap_wdone <= wdone0 ;
 			vh_state (s, &st) ; r = vh_write_t (s, t, 0, buf, ch * 7, ch) ; chk_count (s, "write", r, ch * 7, ch, 0, &st) ;
 			vh_state (s, &st) ; if (st.dataoffset > wr_dataoffset) wr_dataoffset = st.dataoffset ;
 			sf_close (s) ; s = NULL ;
@@ -79,7 +79,7 @@ static long run_workload (int format, int ch, int wl, int t, const MEMF *base, l
 				{	vh_stat ("frozen_prefixes_compared", 1) ; vh_stat ("frozen_prefix_bytes", (long) (hi - lo)) ;
 					if (store.len < hi) vh_viol (vh_key ("C15|accepted-data-lost|%s|%s", cur_fn, keyq), "single-shot fault at callback %ld: %lld bytes were in the store when it fired, the finished file has %lld", fault_at, (long long) store.snap_len, (long long) store.len) ;
 					else for (q = lo ; q < hi ; q++) if (store.d [q] != store.snap [q])
-					{	vh_viol (vh_key ("C15|accepted-data-corrupted|%s|%s|append-only", cur_fn, keyq), "single-shot fault at callback %ld (%s): byte %lld of the file (audio data starts at %lld; %lld bytes were in the store when the fault fired) changed from 0x%02x to 0x%02x although the workload only appends", fault_at, kname [kind], (long long) q, (long long) lo, (long long) store.snap_len, store.snap [q], store.d [q]) ; break ; }
+					{	vh_viol (vh_key ("C15|accepted-data-corrupted|%s|%s|append-only|%s", cur_fn, keyq, fired_in_update ? "fault-inside-header-update" : "fault-outside-header-update"), "single-shot fault at callback %ld (%s): byte %lld of the file (audio data starts at %lld; %lld bytes were in the store when the fault fired) changed from 0x%02x to 0x%02x although the workload only appends", fault_at, kname [kind], (long long) q, (long long) lo, (long long) store.snap_len, store.snap [q], store.d [q]) ; break ; }
 					}
 				}
 			}
